@@ -257,6 +257,7 @@ def check(ctx):
     # general case, by role: an outer loop over every arrangement index 0..solution_count-1, the arrangement unranked with the same
     # counters, an inner product of shapes[p] over its positions, accumulated (+=) into the value that is returned
     ok_general = False
+    general_rets = []
     for lp in [x for x in statements(scp.node) if isinstance(x, ast.For) and isinstance(x.target, ast.Name)]:
         it = ast.unparse(lp.iter).replace(" ", "")
         if it not in ("range(0,solution_count)", "range(solution_count)"):
@@ -284,8 +285,15 @@ def check(ctx):
         zero = [x for x in statements(scp.node) if isinstance(x, ast.Assign) and dotted(x.targets[0]) == accv and ast.unparse(x.value) == "0"]
         if a_ == ["len(self._crossing_instances)", "m_or_counters", "first_n", iv, "pmemo"] and rets_ and zero:
             ok_general = True
+            general_rets.extend(rets_)
     ctx.check(ok_general, R, scp, "general case sums over arrangements",
               "otherwise the count is the sum over all arrangements of the product of their completions", "the general case of sum_combination_products changed")
+    # no third way out: every result of the function is the closed form of the uniform case or the sum of the general case
+    other = [x for x in statements(scp.node) if isinstance(x, ast.Return) and x not in ts[0].body and not any(x is y for y in general_rets)]
+    ctx.check(not other, R, scp, "no further shortcut", "the closed form of the uniform case and the sum over arrangements are the only results",
+              "sum_combination_products has a further result path `%s` under %s: a closed form is exact only when every combination has the same number of completions and of copies; "
+              "any other shortcut miscounts the candidates (RandomGen then stops early or draws out of range)" % (
+                  ast.unparse(other[0]) if other else "", sorted(Fs_.conds(other[0])) if other else ""), other[0] if other else None)
 
     # ---- a verdict computed over several factors / constraints must not be overwritten per iteration
     R = "C06.filter"
